@@ -6,7 +6,7 @@ ENGINES = [
 NOTES = ("Contract-based deductive verification; see DESIGN.md. Exit codes of ./check: 0 held, 1 violation "
          "(VIOLATION line), 2 undecided, 3 checker error.")
 CHECKS = [
-    {"id": "C11", "level": "proof", "modules": ["contracts.C11_curve"], "bounded": [],
+    {"id": "C11", "level": "proof", "modules": ["contracts.C11_curve"], "bounded": ["bounded.C11_floats"],
      "technique": "deductive verification: sidecar contracts on the real source, VCs by symbolic execution (pyvc), z3",
      "text": "Every claim of the statement (flat between the balance points, exact line / asymptote beyond them, monotone, "
              "Lipschitz-continuous, loads non-negative, exclusive and additive) is a postcondition of DailyModel._predict_submodel "
